@@ -29,6 +29,8 @@ pub struct Profile {
     pub options_mix: bool,
     /// every member sends public (unencrypted) handshake messages, so external observers can follow
     pub public_handshake: bool,
+    /// per-mille chance per round to add offending by-reference proposals (C10)
+    pub p_offend: u64,
 }
 
 impl Profile {
@@ -50,6 +52,7 @@ impl Profile {
             sqlite_mix: false,
             options_mix: true,
             public_handshake: false,
+            p_offend: 0,
         }
     }
 }
@@ -101,6 +104,7 @@ pub struct Hist<'a, C: MlsConfig> {
     pub mk: &'a dyn Fn(&Setup, &Handles, mls_rs::identity::SigningIdentity, mls_rs::crypto::SignatureSecretKey) -> Client<C>,
     pub next_name: usize,
     pub tree_qa: Option<&'a mut QA>,
+    pub filter_qa: Option<&'a mut QA>,
     /// outsiders that generated a key package not yet used: (member index, kp message)
     pub kps: Vec<(usize, MlsMessage)>,
     pub last_commit_epoch_ok: bool,
@@ -260,6 +264,35 @@ impl<'a, C: MlsConfig> Hist<'a, C> {
         (r, out)
     }
 
+    /// `id,kind,sender,src,target,ident:hpke:sig,ok,pskid`
+    pub fn aprop(&mut self, id: usize, prop: &mls_rs::group::proposal::Proposal, sender: &mls_rs::group::Sender, src: &str, _x: Option<()>) -> String {
+        use mls_rs::group::proposal::Proposal as P;
+        let kind = proposal_kind(prop);
+        let snd = match sender {
+            mls_rs::group::Sender::Member(l) => format!("S{l}"),
+            mls_rs::group::Sender::External(_) => "E".into(),
+            mls_rs::group::Sender::NewMemberCommit => "NC".into(),
+            mls_rs::group::Sender::NewMemberProposal => "NP".into(),
+            #[allow(unreachable_patterns)]
+            _ => "E".into(),
+        };
+        let target = match prop {
+            P::Remove(r) => r.to_remove(),
+            _ => 0,
+        };
+        let leaf = mls_rs::verif::proposal::leaf_keys(prop)
+            .map(|(a, b, c)| (self.w.stamps.of(&a), self.w.stamps.of(&b), self.w.stamps.of(&c)))
+            .unwrap_or((0, 0, 0));
+        let pskid = match prop {
+            P::Psk(_) => {
+                let b = mls_rs::mls_rs_codec::MlsEncode::mls_encode_to_vec(prop).unwrap_or_default();
+                self.w.stamps.of(&b)
+            }
+            _ => 0,
+        };
+        format!("{id},{kind},{snd},{src},{target},{}:{}:{},1,{pskid}", leaf.0, leaf.1, leaf.2)
+    }
+
     pub fn tap_broadcast(&mut self, mi: usize) {
         if let Some(t) = self.tap.as_deref_mut() {
             let f = t.broadcast(&self.w, mi, &mut self.rng);
@@ -321,6 +354,8 @@ impl<'a, C: MlsConfig> Hist<'a, C> {
                 }
             }
         }
+        // the committer of this round is fixed up front so that offending proposals can target it
+        let c_pre = *self.rng.pick(&active);
         // ---- by-reference proposals ------------------------------------------------------------
         let mut round_props: Vec<usize> = vec![];
         let mut removed_targets: Vec<u32> = vec![];
@@ -341,13 +376,13 @@ impl<'a, C: MlsConfig> Hist<'a, C> {
                         }
                         None => continue,
                     }
-                } else if roll < self.prof.p_add + self.prof.p_update && !updaters.contains(&p) {
+                } else if roll < self.prof.p_add + self.prof.p_update && !updaters.contains(&p) && p != c_pre {
                     note = "update".into();
                     updaters.push(p);
                     self.w.with_group(p, |g| g.propose_update(vec![]))
                 } else if roll < self.prof.p_add + self.prof.p_update + self.prof.p_remove && active.len() > 2 {
                     let t = *self.rng.pick(&active);
-                    if t == p {
+                    if t == p || t == c_pre {
                         continue;
                     }
                     let tl = self.leaf_of(t);
@@ -373,6 +408,112 @@ impl<'a, C: MlsConfig> Hist<'a, C> {
                 }
             }
         }
+        // ---- offending by-reference proposals (must be dropped by the committer, C10) ----------------------
+        let mut offenders = 0u64;
+        if self.rng.chance(self.prof.p_offend, 1000) {
+            for _ in 0..self.rng.range(1, 3) {
+                let others: Vec<usize> = active.iter().copied().filter(|&i| i != c_pre).collect();
+                if others.is_empty() {
+                    break;
+                }
+                let p = *self.rng.pick(&others);
+                let pname = self.w.members[p].setup.name.clone();
+                let kind = self.rng.below(7);
+                let mut note = String::new();
+                let (r, m) = match kind {
+                    0 => {
+                        // removal of the committer
+                        let cl = self.leaf_of(c_pre);
+                        note = format!("OFFEND remove-committer {cl}");
+                        self.w.with_group(p, |g| g.propose_remove(cl, vec![]))
+                    }
+                    1 => {
+                        // update by the committer itself
+                        note = "OFFEND update-by-committer".into();
+                        let r = self.w.with_group(c_pre, |g| g.propose_update(vec![]));
+                        if let Some(m) = r.1.clone() {
+                            let cname = self.w.members[c_pre].setup.name.clone();
+                            let mi = self.w.push_msg("proposal", &cname, epoch, m, &note);
+                            round_props.push(mi);
+                            self.tap_broadcast(mi);
+                            self.w.log(format!("propose {cname} {note} -> ok"));
+                            offenders += 1;
+                        }
+                        continue;
+                    }
+                    2 if !removed_targets.is_empty() => {
+                        // a second removal of a leaf that is already being removed
+                        let tl = *self.rng.pick(&removed_targets);
+                        note = format!("OFFEND double-remove {tl}");
+                        self.w.with_group(p, |g| g.propose_remove(tl, vec![]))
+                    }
+                    3 if !removed_targets.is_empty() => {
+                        // update from a member that is being removed (two changes to one leaf)
+                        let tl = *self.rng.pick(&removed_targets);
+                        let Some(&x) = active.iter().find(|&&i| self.leaf_of(i) == tl) else { continue };
+                        if updaters.contains(&x) || x == c_pre {
+                            continue;
+                        }
+                        updaters.push(x);
+                        note = format!("OFFEND update-of-removed {tl}");
+                        let r = self.w.with_group(x, |g| g.propose_update(vec![]));
+                        if let Some(m) = r.1.clone() {
+                            let xname = self.w.members[x].setup.name.clone();
+                            let mi = self.w.push_msg("proposal", &xname, epoch, m, &note);
+                            round_props.push(mi);
+                            self.tap_broadcast(mi);
+                            self.w.log(format!("propose {xname} {note} -> ok"));
+                            offenders += 1;
+                        }
+                        continue;
+                    }
+                    4 => {
+                        // add of somebody who is already a member (fresh key package of a current member)
+                        let t = *self.rng.pick(&active);
+                        let Some(kp) = self.gen_kp(t) else { continue };
+                        note = format!("OFFEND add-existing {}", self.w.members[t].setup.name);
+                        self.w.with_group(p, |g| g.propose_add(kp, vec![]))
+                    }
+                    5 => {
+                        // removal of a blank / non-existing leaf
+                        let n_leaves = self.w.group(p).export_tree().nodes().len() / 2 + 1;
+                        let blank = (0..n_leaves as u32 + 2).find(|l| !active.iter().any(|&i| self.leaf_of(i) == *l));
+                        let Some(bl) = blank else { continue };
+                        note = format!("OFFEND remove-nonexisting {bl}");
+                        self.w.with_group(p, |g| g.propose_remove(bl, vec![]))
+                    }
+                    _ => {
+                        // an update from a member who already has one in this round (two changes to one leaf)
+                        let Some(&x) = updaters.first() else { continue };
+                        if x == c_pre {
+                            continue;
+                        }
+                        note = "OFFEND second-update".into();
+                        let r = self.w.with_group(x, |g| g.propose_update(vec![]));
+                        if let Some(m) = r.1.clone() {
+                            let xname = self.w.members[x].setup.name.clone();
+                            let mi = self.w.push_msg("proposal", &xname, epoch, m, &note);
+                            round_props.push(mi);
+                            self.tap_broadcast(mi);
+                            self.w.log(format!("propose {xname} {note} -> ok"));
+                            offenders += 1;
+                        }
+                        continue;
+                    }
+                };
+                self.rep.op("propose-offending", &r);
+                self.w.log(format!("propose {pname} {note} -> {}", r.s()));
+                if let Some(m) = m {
+                    let mi = self.w.push_msg("proposal", &pname, epoch, m, &note);
+                    round_props.push(mi);
+                    self.tap_broadcast(mi);
+                    offenders += 1;
+                }
+            }
+        }
+        if offenders > 0 {
+            self.rep.cover.insert(format!("offenders={}", offenders.min(3)));
+        }
         // deliver proposals to everyone else, in random order per receiver
         for &i in &active {
             let mut order = round_props.clone();
@@ -396,7 +537,7 @@ impl<'a, C: MlsConfig> Hist<'a, C> {
         if cands.is_empty() {
             return;
         }
-        let c = *self.rng.pick(&cands);
+        let c = if cands.contains(&c_pre) { c_pre } else { *self.rng.pick(&cands) };
         let cname = self.w.members[c].setup.name.clone();
         let cleaf = self.leaf_of(c);
         // by-value extras
@@ -434,6 +575,35 @@ impl<'a, C: MlsConfig> Hist<'a, C> {
         );
         let before = self.w.components(c);
         let tree_before = self.w.anodes(c);
+        // abstract bundle for the proposal-filter model (C10): cached by-reference proposals in bundle order,
+        // then the by-value ones in the order the builder receives them
+        let cached = self.w.group(c).verif_cached_proposals_in_bundle_order();
+        let mut aprops: Vec<String> = vec![];
+        let mut cached_refs: Vec<Vec<u8>> = vec![];
+        for (idx, (rf, prop, sender)) in cached.iter().enumerate() {
+            cached_refs.push(rf.clone());
+            aprops.push(self.aprop(idx, prop, sender, "r", None));
+        }
+        let mut byvalue_kinds: Vec<(&'static str, usize)> = vec![];
+        {
+            let mut k = cached.len();
+            for (_, kp) in &bv_adds {
+                let lk = mls_rs::verif::proposal::key_package_leaf(kp);
+                let leaf = lk.map(|(a, b, cc)| (self.w.stamps.of(&a), self.w.stamps.of(&b), self.w.stamps.of(&cc))).unwrap_or((0, 0, 0));
+                aprops.push(format!("{k},add,S{cleaf},v,0,{}:{}:{},1,0", leaf.0, leaf.1, leaf.2));
+                byvalue_kinds.push(("add", k));
+                k += 1;
+            }
+            for t in &bv_removes {
+                aprops.push(format!("{k},remove,S{cleaf},v,{t},0:0:0,1,0"));
+                byvalue_kinds.push(("remove", k));
+                k += 1;
+            }
+            if bv_psk.is_some() {
+                aprops.push(format!("{k},psk,S{cleaf},v,0,0:0:0,1,{}", 900000 + k));
+                byvalue_kinds.push(("psk", k));
+            }
+        }
         let adds2 = bv_adds.clone();
         let rem2 = bv_removes.clone();
         let psk2 = bv_psk.clone();
@@ -466,6 +636,11 @@ impl<'a, C: MlsConfig> Hist<'a, C> {
         };
         self.rep.op("commit", &r);
         self.w.log(format!("commit {cname} {detail} -> {}", r.s()));
+        if out.is_none() {
+            if let Some(qa) = self.filter_qa.as_deref_mut() {
+                qa.put(&format!("filter send c={cleaf} {} {}", tree_str(&tree_before), if aprops.is_empty() { "-".to_string() } else { aprops.join(";") }), "err");
+            }
+        }
         let Some(out) = out else {
             // C04: a failed build leaves the member unchanged
             let after = self.w.components(c);
@@ -543,6 +718,42 @@ impl<'a, C: MlsConfig> Hist<'a, C> {
             }
         }
         let edits = Edits { rm: e_rm, up: e_up, add: e_add };
+        if let Some(CommitEffect::NewEpoch(ne)) = cdesc.as_ref().map(|d| &d.effect) {
+            let mut applied_ids: Vec<usize> = vec![];
+            let mut bv_left = byvalue_kinds.clone();
+            let mut applied_props: Vec<String> = vec![];
+            for pi in &ne.applied_proposals {
+                let id = match &pi.source {
+                    mls_rs::mls_rules::ProposalSource::ByReference(r) => cached_refs.iter().position(|x| x.as_slice() == &**r),
+                    mls_rs::mls_rules::ProposalSource::ByValue => {
+                        let k = proposal_kind(&pi.proposal);
+                        bv_left.iter().position(|(kk, _)| *kk == k).map(|pos| bv_left.remove(pos).1)
+                    }
+                    _ => None,
+                };
+                if let Some(id) = id {
+                    applied_ids.push(id);
+                    if let Some(a) = aprops.iter().find(|a| a.starts_with(&format!("{id},"))) {
+                        applied_props.push(a.clone());
+                    }
+                }
+            }
+            applied_ids.sort();
+            let ids = if applied_ids.is_empty() { "-".to_string() } else { applied_ids.iter().map(|x| x.to_string()).collect::<Vec<_>>().join(",") };
+            let force_path = self.w.members[c].setup.path_required || newid.is_some();
+            let path = if force_path { "x".to_string() } else { (out.contains_update_path as u8).to_string() };
+            if let Some(qa) = self.filter_qa.as_deref_mut() {
+                qa.put(
+                    &format!("filter send c={cleaf} {} {} path={}", tree_str(&tree_before), if aprops.is_empty() { "-".to_string() } else { aprops.join(";") }, if force_path { "x" } else { "?" }),
+                    &format!("ok applied={ids} path={path}"),
+                );
+                // the receivers' view: exactly the committed proposals, strict mode
+                qa.put(
+                    &format!("filter receive c={cleaf} {} {} path={}", tree_str(&tree_before), if applied_props.is_empty() { "-".to_string() } else { applied_props.join(";") }, if force_path { "x" } else { "?" }),
+                    &format!("ok applied={ids} path={path}"),
+                );
+            }
+        }
         let mut priv_before: BTreeMap<usize, (u32, Vec<bool>)> = BTreeMap::new();
         for &i in &active {
             priv_before.insert(i, self.w.priv_bits(i));
@@ -970,6 +1181,7 @@ pub fn run_histories(o: &Opts, prof: Profile, n: u64, stem: &str, focus: &[&'sta
     let mut failing_logs: Vec<(u64, Vec<String>)> = vec![];
     let mut seedgen = Rng::new(o.seed());
     let mut qa = QA::create(&dir, &format!("{stem}-tree"));
+    let mut fqa = QA::create(&dir, &format!("{stem}-filter"));
     for h in 0..n {
         let hseed = seedgen.next();
         let log: SharedCryptoLog = Default::default();
@@ -983,6 +1195,7 @@ pub fn run_histories(o: &Opts, prof: Profile, n: u64, stem: &str, focus: &[&'sta
             mk: &mk,
             next_name: 0,
             tree_qa: Some(&mut qa),
+            filter_qa: Some(&mut fqa),
             tap: None,
             kps: vec![],
             last_commit_epoch_ok: true,
@@ -1015,6 +1228,7 @@ pub fn run_histories(o: &Opts, prof: Profile, n: u64, stem: &str, focus: &[&'sta
         total.max_depth = total.max_depth.max(rep.max_depth);
     }
     qa.finish();
+    fqa.finish();
     let _ = std::fs::remove_dir_all("/tmp/vharness-scratch");
     (total, failing_logs)
 }
@@ -1046,9 +1260,27 @@ pub fn run(o: &Opts) -> i32 {
     let mut prof = Profile::default_mix();
     prof.rounds = o.u64("rounds", prof.rounds as u64) as usize;
     prof.sqlite_mix = o.get("sqlite").is_some();
-    let focus: Vec<&'static str> = vec![];
+    prof.p_offend = o.u64("offend", 0);
+    prof.max_members = o.u64("members", prof.max_members as u64) as usize;
+    if o.get("removal_bias").is_some() {
+        prof.p_remove = 550;
+        prof.p_add = 650;
+    }
+    let focus_s = o.str("focus", "");
+    let all: [&'static str; 20] = ["C01", "C02", "C03", "C04", "C05", "C06", "C07", "C08", "C09", "C10", "C11", "C12", "C13", "C14", "C15", "C16", "C17", "C18", "C19", "C20"];
+    let focus: Vec<&'static str> = all.iter().copied().filter(|p| focus_s.split(',').any(|f| f == *p)).collect();
     let (rep, failing) = run_histories(o, prof, n, "hist", &focus);
     let dir = o.str("out", "/verif/work/hist");
     print_report(&rep, &failing, &focus, &dir, "hist");
+    // one failure per line for the check script
+    let rel: Vec<String> = rep
+        .failures
+        .iter()
+        .filter(|f| focus.is_empty() || focus.contains(&f.prop))
+        .map(|f| format!("{}: {}", f.prop, f.what))
+        .collect();
+    std::fs::write(format!("{dir}/hist.failures"), rel.join("\n")).unwrap();
+    let log: String = failing.iter().map(|(s, l)| format!("==== seed {s}\n{}\n", l.join("\n"))).collect();
+    std::fs::write(format!("{dir}/hist.faillog"), log).unwrap();
     0
 }
